@@ -14,7 +14,7 @@
 //!   exactly what ORDER BY promises; ties on equal keys may legitimately come in another order).
 use arrow::datatypes::SchemaRef;
 use datafusion::catalog::TableProvider;
-use datafusion::common::tree_node::{TreeNode, TreeNodeRecursion};
+use datafusion::common::tree_node::TreeNodeRecursion;
 use datafusion::common::{DFSchema, TableReference, not_impl_err};
 use datafusion::datasource::MemTable;
 use datafusion::error::{DataFusionError, Result as DfResult};
@@ -306,4 +306,170 @@ pub fn has_interesting_logical(kinds: &BTreeSet<String>) -> bool {
 
 pub fn runtime() -> Result<tokio::runtime::Runtime, std::io::Error> {
     tokio::runtime::Builder::new_current_thread().enable_all().build()
+}
+
+// ---------------------------------------------------------------------------------------------
+// known findings, per-thread result cache, survey mode
+
+/// A violation whose only causes are recorded findings: the message starts with `[known:a,b] `.
+pub fn known_violation(tags: &[&'static str], detail: String) -> CaseResult {
+    let mut t: Vec<&str> = tags.to_vec();
+    t.sort();
+    t.dedup();
+    CaseResult::violation(format!("[known:{}] {detail}", t.join(",")))
+}
+
+pub fn known_tags(r: &CaseResult) -> Vec<String> {
+    if let vf_kit::engine::Outcome::Violation(m) = &r.outcome {
+        if let Some(rest) = m.strip_prefix("[known:") {
+            if let Some(end) = rest.find(']') {
+                return rest[..end].split(',').map(|s| s.to_string()).collect();
+            }
+        }
+    }
+    vec![]
+}
+
+fn open_signatures(id: &str) -> Vec<String> {
+    static ALL: std::sync::OnceLock<Vec<(String, String)>> = std::sync::OnceLock::new();
+    let all = ALL.get_or_init(|| {
+        let mut out = vec![];
+        let path = vf_kit::engine::verif_root().join("known_findings.json");
+        if let Ok(text) = std::fs::read_to_string(path) {
+            if let Ok(v) = serde_json::from_str::<serde_json::Value>(&text) {
+                for e in v.get("findings").and_then(|f| f.as_array()).cloned().unwrap_or_default() {
+                    if e.get("status").and_then(|x| x.as_str()) == Some("open") {
+                        if let (Some(p), Some(s)) = (e.get("property").and_then(|x| x.as_str()), e.get("signature").and_then(|x| x.as_str())) {
+                            out.push((p.to_string(), s.to_string()));
+                        }
+                    }
+                }
+            }
+        }
+        out
+    });
+    all.iter().filter(|(p, _)| p == id).map(|(_, s)| s.clone()).collect()
+}
+
+/// The signature the engine matches against known_findings.json: the first tag of a tagged violation that is
+/// still open (a case showing two recorded findings is excluded while either is open); a tagged violation
+/// none of whose tags is open keeps its first tag (→ reported); untagged results have no signature.
+pub fn pick_signature(id: &str, r: &CaseResult) -> Option<String> {
+    let tags = known_tags(r);
+    if tags.is_empty() {
+        return None;
+    }
+    let open = open_signatures(id);
+    if tags.iter().all(|t| open.contains(t)) {
+        // every cause is an open finding: excluded through the first one
+        Some(tags[0].clone())
+    } else {
+        // some cause is no longer open: surface it (it is not in the engine's known set → reported)
+        tags.iter().find(|t| !open.contains(t)).cloned()
+    }
+}
+
+thread_local! {
+    static LAST: std::cell::RefCell<Option<(u64, CaseResult)>> = const { std::cell::RefCell::new(None) };
+}
+
+/// `known_signature` and `run` see the same case back to back on the same thread: run it once.
+pub fn cached<C: Serialize>(sub: &str, case: &C, f: impl FnOnce() -> CaseResult) -> CaseResult {
+    let mut key_src = serde_json::to_vec(case).unwrap_or_default();
+    key_src.extend_from_slice(sub.as_bytes());
+    let key = vf_kit::engine::fnv1a(&key_src);
+    if let Some(hit) = LAST.with(|c| c.borrow().as_ref().filter(|(k, _)| *k == key).map(|(_, r)| r.clone())) {
+        return hit;
+    }
+    let r = f();
+    LAST.with(|c| *c.borrow_mut() = Some((key, r.clone())));
+    r
+}
+
+/// `known_signature` body: never lets a panic of the code under test escape (the engine calls it outside its
+/// panic guard); the subsequent `run` re-executes the case under the guard.
+pub fn signature_of<C: Serialize>(id: &str, sub: &str, case: &C, f: impl FnOnce() -> CaseResult) -> Option<String> {
+    match std::panic::catch_unwind(std::panic::AssertUnwindSafe(|| cached(sub, case, f))) {
+        Ok(r) => pick_signature(id, &r),
+        Err(_) => None,
+    }
+}
+
+/// Development aid: with `VF_SERDE_SURVEY=<dir>` set, violations do not stop the run; they are counted as
+/// inconclusive under their first line and the first full message per class is written to `<dir>`.
+pub fn finish<C: Serialize>(sub: &str, case: &C, r: CaseResult) -> CaseResult {
+    let Some(dir) = std::env::var_os("VF_SERDE_SURVEY") else { return r };
+    let vf_kit::engine::Outcome::Violation(m) = &r.outcome else { return r };
+    let first = m.lines().next().unwrap_or("");
+    let key: String = first.chars().filter(|c| !c.is_ascii_digit()).take(110).collect();
+    let dir = std::path::PathBuf::from(dir);
+    let _ = std::fs::create_dir_all(&dir);
+    for i in 0..3 {
+        let path = dir.join(format!("{sub}-{:016x}-{i}.txt", vf_kit::engine::fnv1a(key.as_bytes())));
+        if !path.exists() {
+            let _ = std::fs::write(&path, format!("{m}\n\nCASE:\n{}\n", serde_json::to_string(case).unwrap_or_default()));
+            break;
+        }
+    }
+    let mut out = CaseResult::inconclusive(format!("SURVEY {key}"));
+    out.labels = r.labels.clone();
+    out
+}
+
+/// plan text with nested `Union` lines folded into their parent `Union` (what EliminateNestedUnion produces)
+pub fn flatten_unions(text: &str) -> String {
+    let lines: Vec<&str> = text.lines().collect();
+    let indent = |l: &str| l.len() - l.trim_start().len();
+    let is_union = |l: &str| {
+        let t = l.trim_start();
+        t == "Union" || t.starts_with("Union [")
+    };
+    // stack of (indent of a Union line as printed, shift applied below it)
+    let mut out: Vec<String> = vec![];
+    let mut stack: Vec<(usize, usize, bool)> = vec![]; // (orig indent, shift for children, is union)
+    for l in lines {
+        let ind = indent(l);
+        while let Some(&(i, _, _)) = stack.last() {
+            if i >= ind { stack.pop(); } else { break; }
+        }
+        let (parent_shift, parent_is_union) = stack.last().map(|&(_, s, u)| (s, u)).unwrap_or((0, false));
+        if is_union(l) && parent_is_union {
+            // drop this line; its children move up by one level (2 spaces)
+            stack.push((ind, parent_shift + 2, true));
+            continue;
+        }
+        let new_ind = ind.saturating_sub(parent_shift);
+        out.push(format!("{}{}", " ".repeat(new_ind), l.trim_start()));
+        stack.push((ind, parent_shift, is_union(l)));
+    }
+    out.join("\n")
+}
+
+/// the table-function scans of a plan (TableScan whose name is not one of the registered tables)
+pub fn table_function_scans(plan: &LogicalPlan, tables: &[Table]) -> Vec<String> {
+    let mut out = vec![];
+    let _ = plan.apply_with_subqueries(|n| {
+        if let LogicalPlan::TableScan(ts) = n {
+            let name = ts.table_name.table().to_string();
+            if !tables.iter().any(|t| t.name == name) {
+                out.push(name);
+            }
+        }
+        Ok(TreeNodeRecursion::Continue)
+    });
+    out
+}
+
+/// first pair of lines in which two plan texts differ (trimmed, shortened) — puts the cause into the first
+/// line of a violation message
+pub fn first_diff(a: &str, b: &str) -> String {
+    let (la, lb): (Vec<&str>, Vec<&str>) = (a.lines().collect(), b.lines().collect());
+    let short = |s: &str| -> String { s.trim().chars().take(90).collect() };
+    for i in 0..la.len().max(lb.len()) {
+        let (x, y) = (la.get(i).copied().unwrap_or("<end>"), lb.get(i).copied().unwrap_or("<end>"));
+        if x != y {
+            return format!("`{}` => `{}`", short(x), short(y));
+        }
+    }
+    "<no line differs>".into()
 }
